@@ -130,6 +130,19 @@ def handler(p):
             elif kind == 'del':
                 os.environ.pop(o['k'], None)
                 out.append({'op': 'del'})
+            elif kind == 'write':
+                if o['kind'] == 'file':
+                    with open(fpath[str(o['id'])], 'w') as f:
+                        for k, v in o['content']:
+                            f.write(dotenv_line(k, v))
+                else:
+                    d = dpath[str(o['id'])]
+                    for name in os.listdir(d):
+                        os.remove(os.path.join(d, name))
+                    for k, v in o['content']:
+                        with open(os.path.join(d, k), 'w') as f:
+                            f.write(v)
+                out.append({'op': 'write'})
             elif kind == 'reset':
                 os.environ.clear()
                 os.environ.update(o['env'])
